@@ -30,22 +30,22 @@ import (
 
 // Seed is one valid artifact (or derived blob) that mutations start from.
 type Seed struct {
-	Idx     int               `json:"idx"`
-	Name    string            `json:"name"`
-	Kind    string            `json:"kind"`   // pkg | tar | cert | pkcs7 | tsresp | tslegacy
-	Module  string            `json:"module"` // signer module name (pkg, tar)
-	Ext     string            `json:"ext"`    // extension the temp file must carry
-	Layout  string            `json:"layout"` // mutate layout kind
-	File    string            `json:"file"`   // seed bytes on disk
-	Content string            `json:"content,omitempty"`
-	Aux     map[string]string `json:"aux,omitempty"`
-	Size    int               `json:"size"`
-	Quick   bool              `json:"quick"`
-	Tiny    bool              `json:"tiny"`  // eligible for pair mutations
-	IdentityOnly bool          `json:"identity_only"` // run as is (tar variants, regression corpus)
-	Origin  string            `json:"origin,omitempty"`
-	Source  string            `json:"source,omitempty"` // functest file the seed is a verbatim copy of
-	data    []byte
+	Idx          int               `json:"idx"`
+	Name         string            `json:"name"`
+	Kind         string            `json:"kind"`   // pkg | tar | cert | pkcs7 | tsresp | tslegacy
+	Module       string            `json:"module"` // signer module name (pkg, tar)
+	Ext          string            `json:"ext"`    // extension the temp file must carry
+	Layout       string            `json:"layout"` // mutate layout kind
+	File         string            `json:"file"`   // seed bytes on disk
+	Content      string            `json:"content,omitempty"`
+	Aux          map[string]string `json:"aux,omitempty"`
+	Size         int               `json:"size"`
+	Quick        bool              `json:"quick"`
+	Tiny         bool              `json:"tiny"`          // eligible for pair mutations
+	IdentityOnly bool              `json:"identity_only"` // run as is (tar variants, regression corpus)
+	Origin       string            `json:"origin,omitempty"`
+	Source       string            `json:"source,omitempty"` // functest file the seed is a verbatim copy of
+	data         []byte
 }
 
 type seedBuilder struct {
